@@ -141,8 +141,19 @@ func (p IdentityPather) BlobPath(name string) (string, error) {
 
 // NameFromBlobPath strips the root from bp.
 func (p IdentityPather) NameFromBlobPath(bp string) (string, error) {
-	if !strings.HasPrefix(bp, p.root) {
+	// BlobPath joins root and name with path.Join, which cleans the root: a
+	// trailing slash is dropped, "" joins to the bare name and "/" keeps its
+	// single slash. Strip exactly the prefix BlobPath produced.
+	prefix := path.Clean(p.root)
+	switch prefix {
+	case ".":
+		prefix = ""
+	case "/":
+	default:
+		prefix += "/"
+	}
+	if !strings.HasPrefix(bp, prefix) {
 		return "", errors.New("invalid identity path format")
 	}
-	return bp[len(p.root)+1:], nil
+	return bp[len(prefix):], nil
 }
